@@ -359,6 +359,57 @@ def rule_N3(ctx):
     ctx.floor('C13.N3.validate', 4)
 
 
+def rule_N3_flag(ctx):
+    """Writer/reader agreement for noise_floor / relative_error: the getter
+    may only discriminate scalar vs array on state that the setter refreshes
+    on EVERY assignment.  _set_nf_re stores attrs[name] on every path; the
+    array data['_'+name] only on the array path (and never removes it)."""
+    sm = ctx.repo.mod(SURV)
+    st = sm.method('Survey', '_set_nf_re')
+    pars = au.params(st)
+    ctx.anchor(len(pars) == 3, '_set_nf_re(self, name, value)')
+    N = pars[1]
+    top = [x for x in au.body_nodoc(st)]
+    must_attrs = any(find(f'self._data.attrs[{N}] = __', x) or
+                     find(f'self.data.attrs[{N}] = __', x)
+                     for x in top if isinstance(x, ast.Assign))
+    ctx.check('C13.N3.flag', '_set_nf_re refreshes attrs[name] on every path',
+              must_attrs, 'the scalar/array flag in data.attrs is not '
+              'rewritten by every assignment', ctx.where(sm, st))
+    arr = [n for n, b in find(f"self.data['_' + {N}] = __", st) +
+           find(f"self._data['_' + {N}] = __", st)]
+    ctx.anchor(len(arr) >= 1, 'array store data["_"+name] in _set_nf_re')
+    arr_guarded = all(au.guards_of(n, st) for n in arr)
+    removes = any(isinstance(n, ast.Delete) or (
+        isinstance(n, ast.Call) and isinstance(n.func, ast.Attribute) and
+        n.func.attr in ('drop_vars', 'drop', 'pop')) for n in ast.walk(st))
+    presence_ok = (not arr_guarded) or removes
+    for name in ('noise_floor', 'relative_error'):
+        getters = [m for m in sm.methods('Survey', name)
+                   if 'property' in au.decorator_names(m)]
+        ctx.anchor(len(getters) == 1, f'Survey.{name} getter')
+        g = getters[0]
+        ifs = [n for n in ast.walk(g) if isinstance(n, (ast.If, ast.IfExp))]
+        ctx.anchor(len(ifs) >= 1, f'Survey.{name} getter: scalar/array branch')
+        for i in ifs:
+            reads_attr = any(
+                isinstance(x, ast.Attribute) and x.attr == name and
+                ast.unparse(x.value) in ('self.data', 'self._data')
+                or isinstance(x, ast.Subscript) and
+                ast.unparse(x.value).endswith('.attrs') and
+                isinstance(x.slice, ast.Constant) and x.slice.value == name
+                for x in ast.walk(i.test))
+            reads_var = any(isinstance(x, ast.Constant) and
+                            x.value == '_' + name for x in ast.walk(i.test))
+            ok = reads_attr or (reads_var and presence_ok)
+            ctx.check('C13.N3.flag', f'Survey.{name} getter discriminator',
+                      ok, f'the getter decides scalar vs array by '
+                      f'`{ast.unparse(i.test)}`, which _set_nf_re does not '
+                      'refresh on every assignment (the stored array is never '
+                      'removed): a later scalar or None assignment is ignored',
+                      ctx.where(sm, i))
+
+
 def rule_N4(ctx):
     sm = ctx.repo.mod(SURV)
     fn = sm.method('Survey', 'select')
@@ -432,6 +483,7 @@ def run(ctx):
     rule_N1(ctx)
     rule_N2(ctx)
     rule_N3(ctx)
+    rule_N3_flag(ctx)
     rule_N4(ctx)
     # cached weights (1/std^2) must not survive a replacement of the
     # observed data they were computed from (shared rule with C12.OW2)
